@@ -81,6 +81,8 @@ def expand(ts, macros, budget):
         rest = ts[1:]
         m = macros.get(t) if is_id(t) else None
         if m is None or t in hs:
+            if m is not None:
+                budget[3] = True     # a macro name kept unexpanded because of its hide set (a painted token)
             out.append((t, hs))
             ts = rest
             continue
@@ -131,7 +133,15 @@ def expand(ts, macros, budget):
             args = []
         elif len(args) != n:
             raise RefError("MacroExpectsDifferentNumberOfArguments")
-        ts = subst(m, args, (hs & close_hs) | {t}, macros, budget) + rest[j + 1:]
+        try:
+            sub = subst(m, args, (hs & close_hs) | {t}, macros, budget)
+        except Outside:
+            if PROBE[0] > 0:
+                out.append((t, hs))
+                ts = rest
+                continue
+            raise
+        ts = sub + rest[j + 1:]
     return out
 
 
@@ -147,14 +157,21 @@ def trim(a):
 # When set, every actual argument is expanded whether the replacement list uses it or not, as the preprocessor under
 # test does: an error inside an argument that C never looks at (a failing paste, a wrong argument count) then shows
 EAGER = [False]
+PROBE = [0]
 
 
 def subst(m, args, hs, macros, budget):
     body = m.body
     params = m.params or []
     if EAGER[0]:
+        # the expansion of an argument is only looked at for the errors and flags it raises; an invocation in it that
+        # leaves the reference's subset is stepped over (its own arguments are then scanned like the rest)
         for a in args:
-            expand(list(a), macros, budget)
+            PROBE[0] += 1
+            try:
+                expand(list(a), macros, budget)
+            finally:
+                PROBE[0] -= 1
     res = []
     i = 0
     n = len(body)
@@ -257,7 +274,7 @@ def run_case(case):
         else:
             files[cur].append((p[0], p[1:]))
     macros, once, out = {}, set(), []
-    budget = [200000, False, False]
+    budget = [200000, False, False, False]
 
     def flush(block):
         if block:
@@ -298,8 +315,8 @@ def run_case(case):
     except Outside as e:
         return ("outside", str(e))
     except RefError as e:
-        return ("err", str(e), budget[1], budget[2])
-    return ("ok", [t for t in out if not is_ws(t)], budget[1], budget[2])
+        return ("err", str(e), budget[1], budget[2], budget[3])
+    return ("ok", [t for t in out if not is_ws(t)], budget[1], budget[2], budget[3])
 
 
 def paste_case(case):
